@@ -384,6 +384,9 @@ type env struct {
 	// tombstoneGet: the current operation loaded a shadow-deleted record; whether
 	// PostGet hooks see it is not defined by the statement.
 	lenientPostGet bool
+	// mustPostGet: hooks without a condition that declare PostGet and whose prefix covers the key of that get: the
+	// loaded (shadow-deleted) record matches their query whatever the back end kept of its data, so they are called
+	mustPostGet map[int]int
 
 	// measurement
 	nCancelThenWrite, nVeto, nReplace, nPush, nFailWrite, nShared, nDeliveries, nWithheld int
@@ -541,8 +544,28 @@ func (e *env) modelGet(k string, local, internal bool) getResult {
 		return getResult{notFound: true}
 	}
 	if st.Deleted {
-		// a shadow-deleted record: the get fails; PostGet calls are not compared
+		// a shadow-deleted record is loaded and then found invalid: the get fails. What hooks with a condition see of it
+		// depends on what the back end kept of the data (not compared); hooks without a condition match it in any case.
 		e.lenientPostGet = true
+		for _, h := range e.activeHooks() {
+			if h.phases&2 == 0 || !h.reg.matchesKey(k) {
+				continue
+			}
+			if h.reg.cond.Kind != 0 {
+				if h.behave[1] == 2 {
+					break // it may have vetoed and ended the chain
+				}
+				continue
+			}
+			if e.mustPostGet == nil {
+				e.mustPostGet = map[int]int{}
+			}
+			e.mustPostGet[h.id]++
+			stats.Class("postget_hook_on_shadow_deleted_record")
+			if h.behave[1] == 2 {
+				break
+			}
+		}
 		return getResult{notFound: true}
 	}
 	cur := *st
@@ -668,10 +691,16 @@ func (e *env) checkStep() {
 		h.expect = nil
 		if e.lenientPostGet {
 			var f []hcall
+			n := 0
 			for _, c := range got {
 				if c.phase != "PostGet" {
 					f = append(f, c)
+				} else {
+					n++
 				}
+			}
+			if want := e.mustPostGet[h.id]; n < want {
+				e.failf("HOOK: %s declares PostGet and has no condition, the get loaded a (shadow-deleted) record under its prefix: expected %d PostGet call(s), got %d (all calls:%s)", who, want, n, fmtCalls(got))
 			}
 			got = f
 		}
@@ -757,6 +786,7 @@ func (e *env) run(ops []opSpec) {
 		e.stepNo = i
 		e.opName = op.Kind
 		e.lenientPostGet = false
+		e.mustPostGet = nil
 		e.exec(op)
 		e.checkStep()
 	}
